@@ -60,6 +60,10 @@ def raises(body):
 def run(ctx):
     repo, cg = ctx.repo, ctx.cg
     styles_rule(ctx); percent_rule(ctx); like_rule(ctx); literal_rule(ctx); littwin_rule(ctx); ident_rule(ctx)
+    # a value (string index, attribute name given to getattr) that is rendered INTO the statement text denotes the program's value only as long as the
+    # cached translation is redone when the value changes: the fixed-parameter rules of C05 are necessary conditions of C06's inline-literal clause
+    from . import C05
+    C05.fixed_rule(ctx, prefix='C06-FIXED'); C05.embedded_rule(ctx, prefix='C06-FIXED')
 
 
 def style_scenarios(cg, f):
